@@ -65,6 +65,20 @@ Proof.
 Qed.
 Print Assumptions C16_f_eq_call.
 
+(* ... over call HISTORIES on one object: whatever sequence of obj(x, T) (array passed by reference or
+   copied), obj.f(x, T, *obj.args) and in-place rewrites of the caller's arrays came before, every answer is
+   the state-free function of the CURRENT content of the array and T (so obj(x, T) = obj.f(x, T, *args) at every
+   step, no hidden state), and the caller's arrays are changed only by the caller's own writes *)
+Theorem C16_f_eq_call_history : forall A (K : KOps A) arrays ops,
+  (forall a, snd (run_hist (gamma_UNIFAC K) (mkH arrays a) ops) = spec_hist (gamma_UNIFAC K) a arrays ops /\
+     h_arrays (fst (run_hist (gamma_UNIFAC K) (mkH arrays a) ops)) =
+     fold_left (fun arr o => match o with HSet r v => upd arr r v | _ => arr end) ops arrays) /\
+  (forall a, snd (run_hist (gamma_modified_UNIFAC K) (mkH arrays a) ops) = spec_hist (gamma_modified_UNIFAC K) a arrays ops /\
+     h_arrays (fst (run_hist (gamma_modified_UNIFAC K) (mkH arrays a) ops)) =
+     fold_left (fun arr o => match o with HSet r v => upd arr r v | _ => arr end) ops arrays).
+Proof. intros A K arrays ops. split; intros a; apply (wrapper_history K). Qed.
+Print Assumptions C16_f_eq_call_history.
+
 (* the object __new__ hands out (ideal fallback included): obj(x, T) and obj.f(x, T, *obj.args) agree *)
 Theorem C16_obj_f_eq_call : forall A I (K : KOps A) (o : gobj (A:=A) (I:=I)) x T g xa,
   obj_call K o x T = Ok (g, xa) ->
